@@ -184,7 +184,9 @@ fn main() {
     states += r.states;
     delivered += r.delivered_execs;
     aborted += r.aborted;
-    yields += r.yields;
+    if !scs[*i].name.starts_with("ticker") {
+      yields += r.yields;
+    }
     capped += r.capped as u64;
     max_depth = max_depth.max(r.max_depth);
     max_pre = max_pre.max(r.max_preemptions);
